@@ -19,7 +19,7 @@ from harness.common import Ctx, report_broken_without_input, standard_model_phas
 
 TRANSLATORS = ["exact_scalar"]
 COQ_FILES = ["Base/Wrap32.v", "Base/D8.v", "gen/Gen_exact_scalar.v", "Model/ExactScalar.v",
-             "Proofs/ExactScalarProofs.v", "Props/C09.v"]
+             "Proofs/ExactScalarProofs.v", "Proofs/CliffordProd.v", "Props/C09.v"]
 IMPORTS = ("From Coq Require Import ZArith List. Import ListNotations.\n"
            "Require Import TV.Base.Wrap32 TV.Base.D8 TV.gen.Gen_exact_scalar TV.Model.ExactScalar.\nOpen Scope Z_scope.\n")
 
@@ -233,11 +233,12 @@ def run(ctx: Ctx) -> int:
         kind = ["unit", "small", "med"][int(rng.integers(0, 3))]
         prod_kinds.append(kind)
         prod_cases.append([(rand_q4(rng, kind), int(rng.integers(-3, 4))) for _ in range(n)])
-    prod_kinds += ["unit", "unit", "unit", "unit"]
+    prod_kinds += ["unit", "unit", "unit", "unit", "unit"]
     prod_cases.append([((2, 0, 0, 0), 0)] * 33)       # the kernel-checked witness of C09_wrap_refuted
     prod_cases.append([((1, 0, 1, 0), 0)] * 64)       # (1+i)^64 = 2^32: what a GHZ-type component produces
     prod_cases.append([((1, 0, 1, 0), 0), ((2, 0, 0, 0), 0), ((1, 0, -1, 0), 0), ((0, 0, 1, 0), 0)] * 50)
     prod_cases.append([((1, 1, 0, 0), 0)] * 20)
+    prod_cases.append([((1, 1, 0, 0), 0)] * 64)       # non-Clifford growth: the kernel-checked witness of C09_wrap_refuted
     prod_impl = []
     for l in prod_cases:
         arr = ExactScalarArray(jnp.array([c for c, _ in l], dtype=jnp.int32).reshape(len(l), 4), jnp.array([p for _, p in l], dtype=jnp.int32))
